@@ -638,8 +638,18 @@ def tv_embedded(site: str, marked: str, holes: list[str], parser: str, variant: 
                 else:
                     return {"status": "altered", "sig": "repetition-bound-folded", "want": ref[:80], "got": repr(v), "text": text}
     except SyntaxError:
-        # eval(expression string) raises SyntaxError at first use: rejected (late), nothing is evaluated
-        return {"status": "rejected", "exc": "SyntaxError-in-expression-string", "text": text}
+        # Fandango ACCEPTED the spec but the expression string it built is not Python: eval() raises SyntaxError at
+        # first use — inside a constraint that is swallowed as a failed combination.  Not a rejection: an alteration,
+        # attributed to the defect that is known to produce such strings where its construct is present.
+        w = norm(want)
+        if any(isinstance(x, ast.Lambda) for x in ast.walk(w)):
+            cls = "lambda-not-rebuilt"
+        elif site == "constraint" and "if" in linearise(w, [], []):
+            cls = "formula-comparison-conditional-operand-garbled"
+        else:
+            cls = "expression-string-is-not-python"
+        d = (cls, ref[:80], "an expression string CPython cannot parse (SyntaxError at first evaluation)")
+        return {"status": "altered", "sig": cls, "want": d[1], "got": d[2], "diffs": [d], "text": text}
     ds = dedup(constraint_diffs(norm(want), norm(got)) if site == "constraint" else all_diffs(norm(want), norm(got)))
     if not ds:
         return {"status": "ok", "text": text}
@@ -1320,7 +1330,7 @@ def main(tier: str) -> int:
         def fail(site, d, rp):
             fails.add(site, d, rp)
         corpus_file(run, p, txt, "cpp" if quick else "python", stats, fail)
-        if time.time() - t_corpus > (45 if quick else 330):     # wall-clock budget: fewer cases under load, never an alarm
+        if time.time() - t_corpus > (40 if quick else 330):     # wall-clock budget: fewer cases under load, never an alarm
             stats["corpus_cut_short_at"] = sources.index((p, txt))
             break
     run.coverage["corpus"] = dict(sorted(stats.items()))
@@ -1373,7 +1383,7 @@ def main(tier: str) -> int:
             fails.add("code", d, {"kind": "code", "text": text, "parser": parser},
                       shrinker=lambda s, text=text, parser=parser: shrink(text, lambda t: s in sigs_of_code(t, parser),
                                                                           3.0 if quick else 10.0))
-        if time.time() - t_gen > (50 if quick else 400):
+        if time.time() - t_gen > (45 if quick else 400):
             status["cut_short_at"] = i
             break
     run.coverage["programs_by_status"] = dict(sorted(status.items()))
@@ -1418,7 +1428,7 @@ def main(tier: str) -> int:
                       shrinker=lambda s, fan=fan, site=site, parser=parser, variant=variant:
                       shrink(fan, lambda t: s in sigs_of_embedded(site, t.strip(), parser, variant), 3.0 if quick else 10.0,
                              mode="eval") if "<" not in fan else None)
-        if time.time() - t_emb > (35 if quick else 330):
+        if time.time() - t_emb > (32 if quick else 330):
             estatus["cut_short_at"] = i
             break
     run.coverage["embedded_by_status"] = dict(sorted(estatus.items()))
